@@ -1177,7 +1177,7 @@ def _sun_parameters(U, rtol=1e-12, atol=1e-12):
     transformation.
     """
     if U.shape == (3, 3):
-        return _su3_parameters(U)
+        return _su3_parameters(U, rtol, atol)
 
     staircase_transformation, new_U = _build_staircase(U, rtol, atol)
     Unm1 = new_U[1:, 1:]
@@ -1332,12 +1332,14 @@ def _su2_parameters(U, tol=1e-10):
     return [a, b, g]
 
 
-def _su3_parameters(U):
+def _su3_parameters(U, rtol=1e-12, atol=1e-12):
     r"""Factorizes an :math:`\mathrm{SU}(3)` transformation into 3 :math:`\mathrm{SU}(2)`
     transformations.
 
     Args:
         U (array): unitary matrix of shape ``(3,3)`` with :math:`\det U = 1`
+        rtol (float): relative tolerance used when checking for the special cases
+        atol (float): absolute tolerance used when checking for the special cases
 
     Returns:
         list[list]: a list containing three entries of the form ``[a, b, g]``, where every
@@ -1381,15 +1383,20 @@ def _su3_parameters(U):
     # Grab the entries of the first row
     x, y, z = U[0, 0], U[1, 0], U[2, 0]
 
+    # The special cases below apply when the rest of the first column vanishes. This has
+    # to be tested on y and z themselves: |x| within 1e-5 of 1 still leaves entries of
+    # size sqrt(1 - |x|^2) ~ 4e-3 that must not be dropped.
+    trivial_column = np.allclose([y, z], 0, rtol, atol)
+
     # Special case: if the top left element is 1, then we essentially
     # already have an SU(2) transformation embedded in an SU(3) transform,
     # so all we need to do is get the parameters of that SU(2) transform.
-    if np.isclose(x, 1):
+    if trivial_column and np.isclose(x, 1, rtol, atol):
         params = [[0.0, 0.0, 0.0], [0.0, 0.0, 0.0], _su2_parameters(U[1:, 1:])]
     # Another special case: the modulus of the top left element is 1.
     # Then we need to do a transformation on modes 1 and 2 to make the top
     # entry 1, then an SU(2) transformation on modes 2 and 3 with what's left.
-    elif np.isclose(np.abs(x), 1):
+    elif trivial_column:
         # Compute the required phase matrix and embed into SU(3)
         phase_su2 = np.array([[np.conj(x), 0], [0, x]])
 
